@@ -308,7 +308,10 @@ theorem world_step_sim (m : Mode) (w : World) (b : Book) (e : Ev) (hw : w.WF) (h
     · simp [World.step, Book.step]
     · simp [World.step, Book.step]
     · simp [World.step, Book.step]
-  | cursor c =>
+  | blockExit c exc =>
+    simp only [World.step, Book.step]
+    exact ⟨⟨rfl, hk⟩, ⟨rfl, rfl⟩, by simp⟩
+  | cursor c foreign =>
     simp only [World.step, Book.step, range_get]
     by_cases h : c < next
     · simp only [h, if_true]
